@@ -57,11 +57,13 @@ pub struct Req {
     pub amode: u8,
     pub smode: u8,
     pub tokens: Vec<usize>,
+    /// base input of a metamorphic pair (C16): `tokens` is a trivia variant of it
+    pub base: Option<Vec<usize>>,
 }
 
 impl Req {
     pub fn new(gi: usize, tokens: Vec<usize>) -> Req {
-        Req { gi, entry: 0, seed: 1, enc: 0, pmode: 0, amode: 0, smode: 0, tokens }
+        Req { gi, entry: 0, seed: 1, enc: 0, pmode: 0, amode: 0, smode: 0, tokens, base: None }
     }
 }
 
